@@ -379,6 +379,35 @@ func (v *fnVC) calleeFrameCheck(con *Contract, env *Env, key string, pos token.P
 			ex, _ := parseExpr(m[5 : len(m)-1])
 			t, _ := v.tr(ex, env)
 			v.frameCheckTree(t, key+": "+m, pos)
+		case strings.HasPrefix(m, "obj("):
+			// the callee may write any field of that object: it must be fresh or inside the caller's frame as a whole
+			ex, _ := parseExpr(m[4 : len(m)-1])
+			t, ty := v.tr(ex, env)
+			ref := v.refOf(t, ty)
+			if alts, ok := v.frameAlts(ref); ok {
+				myObj := []T{}
+				envE := v.entryEnv()
+				envE.useEntryOld, envE.inOld, envE.old = true, true, map[string]T{}
+				for _, mm := range v.con.Modifies {
+					if strings.HasPrefix(mm, "obj(") {
+						ex2, _ := parseExpr(mm[4 : len(mm)-1])
+						t2, ty2 := v.tr(ex2, envE)
+						myObj = append(myObj, eq(ref, v.refOf(t2, ty2)))
+					}
+				}
+				v.P.add("inTree", inTreeDecl)
+				_ = alts
+				v.memSrt[allocMem] = "Bool"
+				goal := append(myObj, eq(ref, "0"), not(sel(v.mem0(allocMem), ref)))
+				for _, mm := range v.con.Modifies {
+					if strings.HasPrefix(mm, "tree(") {
+						ex2, _ := parseExpr(mm[5 : len(mm)-1])
+						t2, _ := v.tr(ex2, envE)
+						goal = append(goal, app("inTree", t2, ref))
+					}
+				}
+				v.oblige("frame.call", key+": "+m, or(goal...), pos)
+			}
 		case strings.HasPrefix(m, "cell("):
 			ex, _ := parseExpr(m[5 : len(m)-1])
 			t, ty := v.tr(ex, env)
@@ -454,6 +483,25 @@ func (v *fnVC) applyModifies(con *Contract, env *Env) {
 			for _, k := range ks {
 				tt := t
 				items = append(items, item{k, func(a T) T { return app("inTree", tt, app("root", a)) }})
+			}
+			continue
+		}
+		if strings.HasPrefix(m, "obj(") {
+			e, err := parseExpr(m[4 : len(m)-1])
+			if err != nil {
+				panic(err)
+			}
+			t, ty := v.tr(e, env)
+			ref := v.refOf(t, ty)
+			var ks []string
+			for k := range v.memSrt {
+				if k != allocMem && k != deferMem && k != visMem && !strings.HasPrefix(k, "L_") && !strings.HasPrefix(k, "MD_") && !strings.HasPrefix(k, "MV_") {
+					ks = append(ks, k)
+				}
+			}
+			sort.Strings(ks)
+			for _, k := range ks {
+				items = append(items, item{k, func(a T) T { return and(eq(app("root", a), ref), not(eq(app("akind", a), "(- 1)"))) }})
 			}
 			continue
 		}
@@ -1041,6 +1089,14 @@ func (v *fnVC) modSortsOfContract(con *Contract, x *ssa.Call, mod map[string]boo
 		if strings.HasPrefix(m, "tree(") {
 			for k := range v.memSrt {
 				if k != allocMem && k != deferMem && k != visMem && !strings.HasPrefix(k, "L_") {
+					mod[k] = true
+				}
+			}
+			continue
+		}
+		if strings.HasPrefix(m, "obj(") {
+			for k := range v.memSrt {
+				if k != allocMem && k != deferMem && k != visMem && !strings.HasPrefix(k, "L_") && !strings.HasPrefix(k, "MD_") && !strings.HasPrefix(k, "MV_") {
 					mod[k] = true
 				}
 			}
